@@ -1,10 +1,46 @@
 /-
   Props/C01.lean — Dispatch: a route is chosen iff one admits the path, by the documented priority.
-  (theorems are added below as the proof development proceeds; see DESIGN.md §5/C01)
+
+  Quantifier: every history `h` of registrations `(route, id)` (any order, accepted or rejected,
+  routes as the parser produces them: `ParsedSeg`), every regular-expression engine `E`, every
+  header predicate `hok` (which registrations' header constraints the request satisfies), every
+  request path (any byte string).
+
+  Vocabulary (Spec/Dispatch.lean, tree-free): `formsOfRoute E r id` — the long form of a route and,
+  when its last segment is optional, the short form; `Form.Admits` — the form's patterns consume
+  exactly the path's segments (`Consumes`: static / regex / placeholder take one segment, a match-all
+  in the middle takes k ≥ 1 within its capture limit and leaves at least one, a final match-all
+  takes all that is left) and the header constraints hold.  `segsOf path` — leading slashes
+  ignored, split at '/', a trailing slash giving an extra empty segment.
+
+  Proof structure: Proofs/TreeMatch.lean (the matcher returns the head of the priority-ordered
+  enumeration `derivs` of all accepting walks; walks ↔ admitting forms of the tree) and
+  Proofs/TreeAdd.lean (registration keeps the invariant `TreeInv`, and the tree stores exactly
+  the forms of the accepted routes; `insertByRank` is first-in-first-served within a rank).
 -/
+import Flamego.Proofs.TreeMatch
+import Flamego.Proofs.TreeAdd
 import Flamego.Model.Router
 
 namespace Flamego.C01
+
+/-- "segment-wise, leading slashes ignored, a trailing slash being an extra empty segment" -/
+def segsOf (path : Bytes) : List Seg := splitSlash (trimLeftSlash path)
+
+theorem segsOf_ne_nil (path : Bytes) : segsOf path ≠ [] := splitSlash_ne_nil _
+
+/-- the leaf `Tree.Match` returns, params dropped -/
+def chosen (E : Engine) (hok : Nat → Bool) (t : Node) (path : Bytes) : Option Leaf :=
+  (t.match E hok path).map (·.1)
+
+theorem chosen_eq (E : Engine) (hok : Nat → Bool) (t : Node) (path : Bytes) (s : Seg) (rest : List Seg)
+    (hs : segsOf path = s :: rest) :
+    chosen E hok t path = (matchNext E hok t.subs t.leaves s rest []).1 := by
+  unfold chosen Node.match
+  unfold segsOf at hs
+  rw [hs]
+  cases h : matchNext E hok t.subs t.leaves s rest [] with
+  | mk o ps => cases o <;> simp [h]
 
 /-- "static beats regex beats placeholder beats match-all": the order of the regenerated
     iota block of leaf.go is the documented one. A reordering of the constants in the
@@ -13,5 +49,175 @@ theorem rank_documented (l p x y : Bytes) (b : List Bytes) (c : Int) :
     (Pat.static l).rank < (Pat.regex p b).rank ∧ (Pat.regex p b).rank < (Pat.hole x).rank ∧
     (Pat.hole x).rank < (Pat.all y c).rank := by
   simp only [Pat.rank]; decide
+
+/-- **dispatched iff admitted** — "the request is dispatched to a route handler if and only if at
+    least one route registered for its method admits the path".  `h` is the registration history
+    of the request's method; `accepted E h` are the registrations that succeeded. -/
+theorem dispatch_iff (E : Engine) (hok : Nat → Bool) (h : List (Route × Nat))
+    (hP : ∀ rh ∈ h, ∀ s ∈ rh.1.segs, ParsedSeg s = true) (path : Bytes) :
+    (chosen E hok (build E h) path).isSome ↔
+      ∃ rh ∈ accepted E h, ∃ f ∈ formsOfRoute E rh.1 rh.2, f.Admits E hok (segsOf path) := by
+  cases hs : segsOf path with
+  | nil => exact absurd hs (segsOf_ne_nil path)
+  | cons s rest =>
+    rw [chosen_eq E hok _ path s rest hs, matchNext_some_iff E hok _ _ s rest [] (build_inv E h)]
+    constructor
+    · rintro ⟨f, hf, ha⟩
+      obtain ⟨rh, hrh, hfr⟩ := (build_forms_parsed E h hP f).mp hf
+      exact ⟨rh, hrh, f, hfr, ha⟩
+    · rintro ⟨rh, hrh, f, hfr, ha⟩
+      exact ⟨f, (build_forms_parsed E h hP f).mpr ⟨rh, hrh, hfr⟩, ha⟩
+
+/-- **never not-found while an admitting route exists** — "a failure deeper in a preferred branch
+    falls back to the next alternative, never to not-found": the ⇐ direction of `dispatch_iff`
+    spelled out. -/
+theorem backtracking_complete (E : Engine) (hok : Nat → Bool) (h : List (Route × Nat))
+    (hP : ∀ rh ∈ h, ∀ s ∈ rh.1.segs, ParsedSeg s = true) (path : Bytes)
+    (rh : Route × Nat) (hrh : rh ∈ accepted E h) (f : Form) (hf : f ∈ formsOfRoute E rh.1 rh.2)
+    (ha : f.Admits E hok (segsOf path)) :
+    chosen E hok (build E h) path ≠ none := by
+  have := (dispatch_iff E hok h hP path).mpr ⟨rh, hrh, f, hf, ha⟩
+  intro hn; rw [hn] at this; simp at this
+
+/-- **the chosen route admits the path** — the handler that runs belongs to an accepted
+    registration one of whose forms (long or short, as the leaf says) admits the path. -/
+theorem dispatch_sound (E : Engine) (hok : Nat → Bool) (h : List (Route × Nat))
+    (hP : ∀ rh ∈ h, ∀ s ∈ rh.1.segs, ParsedSeg s = true) (path : Bytes) (l : Leaf)
+    (hc : chosen E hok (build E h) path = some l) :
+    ∃ rh ∈ accepted E h, ∃ f ∈ formsOfRoute E rh.1 rh.2,
+      f.hid = l.hid ∧ f.long = l.long ∧ f.Admits E hok (segsOf path) := by
+  cases hs : segsOf path with
+  | nil => exact absurd hs (segsOf_ne_nil path)
+  | cons s rest =>
+    rw [chosen_eq E hok _ path s rest hs] at hc
+    obtain ⟨f, hf, h1, h2, ha⟩ := matchNext_sound_form E hok _ _ s rest [] l hc
+    obtain ⟨rh, hrh, hfr⟩ := (build_forms_parsed E h hP f).mp hf
+    exact ⟨rh, hrh, f, hfr, h1, h2, ha⟩
+
+/-- **the winner is the first accepting walk in priority order** — `derivs` enumerates every
+    accepting root-to-leaf walk: the children of a node in list order, a match-all child taking
+    1, 2, 3 … segments in that order ("prefers the fewest captured segments"), the node's own
+    match-all leaf after every child ("tried only after every alternative that continues with
+    further segments"); the matcher returns its head, for every tree registration can build. -/
+theorem dispatch_first (E : Engine) (hok : Nat → Bool) (h : List (Route × Nat)) (path : Bytes)
+    (s : Seg) (rest : List Seg) (hs : segsOf path = s :: rest) :
+    chosen E hok (build E h) path = (derivs E hok (build E h).subs (build E h).leaves s rest).head? := by
+  rw [chosen_eq E hok _ path s rest hs]
+  exact matchNext_leaf_eq_head E hok _ _ s rest [] (build_inv E h)
+
+/-- every other accepting walk comes later in the enumeration: if `l'` is reachable at all then
+    something is chosen, and it is `l'` or a walk enumerated before it -/
+theorem dispatch_least (E : Engine) (hok : Nat → Bool) (h : List (Route × Nat)) (path : Bytes)
+    (s : Seg) (rest : List Seg) (hs : segsOf path = s :: rest) (l' : Leaf)
+    (hr : Reach E hok (build E h).subs (build E h).leaves s rest l') :
+    ∃ l pre post, chosen E hok (build E h) path = some l ∧
+      derivs E hok (build E h).subs (build E h).leaves s rest = l :: pre ++ post ∧
+      (l' = l ∨ l' ∈ pre ++ post) := by
+  have hm := (mem_derivs_iff_reach E hok _ _ s rest l').mpr hr
+  rw [dispatch_first E hok h path s rest hs]
+  cases hd : derivs E hok (build E h).subs (build E h).leaves s rest with
+  | nil => rw [hd] at hm; cases hm
+  | cons l tl =>
+    refine ⟨l, tl, [], rfl, by simp, ?_⟩
+    rw [hd] at hm
+    simpa using hm
+
+/-- **sibling order = rank, then age** — "static beats regex beats placeholder beats match-all;
+    among equally ranked alternatives the earlier-registered wins": registration puts a new
+    alternative after every existing one of lower or EQUAL rank and before every one of strictly
+    higher rank, in a list that is sorted by rank (`TreeInv`, kept by `build_inv`). -/
+theorem sibling_order_fifo {α : Type} (rank : α → Nat) (x : α) (l : List α)
+    (hs : l.Pairwise (fun a b => rank a ≤ rank b)) :
+    ∃ pre post, l = pre ++ post ∧ insertByRank rank x l = pre ++ x :: post ∧
+      (∀ y ∈ pre, rank y ≤ rank x) ∧ (∀ y ∈ post, rank x < rank y) :=
+  insertByRank_split rank x l hs
+
+/-- the invariant every reachable tree satisfies: every sibling list sorted by rank, at most one
+    match-all and it is last, canonical texts pairwise different — at every depth -/
+theorem tree_invariant (E : Engine) (h : List (Route × Nat)) :
+    TreeInv (build E h).subs (build E h).leaves := build_inv E h
+
+/-- a registration that fails changes nothing: the tree is the one built from the accepted
+    registrations alone -/
+theorem rejected_registrations_invisible (E : Engine) (h : List (Route × Nat)) :
+    build E h = build E (accepted E h) := by
+  unfold build accepted
+  generalize Node.root = t
+  induction h generalizing t with
+  | nil => rfl
+  | cons rh h ih =>
+    simp only [buildFrom, acceptedFrom]
+    cases hr : addRoute E t rh.1 rh.2 with
+    | error e => simp only []; exact ih t
+    | ok t' => simp only [buildFrom, hr]; exact ih t'
+
+/-! ### router level: the method selects the tree -/
+
+/-- full tree matching at the router: the request's method selects the tree, an unknown method has
+    none ("or the method is unknown" ⇒ not found) -/
+theorem router_tree_dispatch (E : Engine) (R : Router) (req : Request) (t : Node)
+    (ht : assocGet R.trees req.method = some t) :
+    (∃ l ps, R.serveTreeOnly E req = .handler l ps) ↔ (chosen E (R.hok E req.hdrs) t req.path).isSome := by
+  unfold Router.serveTreeOnly chosen
+  rw [ht]
+  cases hm : t.match E (R.hok E req.hdrs) req.path with
+  | none => simp [hm]
+  | some lp => obtain ⟨l, ps⟩ := lp; simp [hm]
+
+/-! ### non-vacuity: a history with a rejected route, several admitting forms, backtracking -/
+
+section Example
+/-- `E₀`: an engine that knows no expression -/
+def E₀ : Engine := ⟨fun _ => none, fun _ _ => none, fun _ _ => false⟩
+
+/-- `/a/{x}`, `/a/b` (static wins although registered later), `/{p: **}` and a duplicate `/a/b` -/
+def h₀ : List (Route × Nat) :=
+  [(⟨[⟨false, [.ident [97]]⟩, ⟨false, [.bind [120]]⟩]⟩, 0),
+   (⟨[⟨false, [.ident [97]]⟩, ⟨false, [.ident [98]]⟩]⟩, 1),
+   (⟨[⟨false, [.params [⟨[112], .lit [42, 42]⟩]]⟩]⟩, 2),
+   (⟨[⟨false, [.ident [97]]⟩, ⟨false, [.ident [98]]⟩]⟩, 3)]
+
+example : (∀ rh ∈ h₀, ∀ s ∈ rh.1.segs, ParsedSeg s = true) := by decide
+example : (accepted E₀ h₀).map (·.2) = [0, 1, 2] := by decide
+example : segsOf [47, 47, 97, 47, 98] = [[97], [98]] := by decide                         -- "//a/b"
+example : segsOf [47, 97, 47] = [[97], []] := by decide                                   -- "/a/" : extra empty segment
+
+/-- the premises of `dispatch_iff` are met by a concrete request: `/a/b` is admitted by the form of
+    registration 1 (and by those of 0 and 2), so it is dispatched -/
+example : (chosen E₀ (fun _ => true) (build E₀ h₀) [47, 97, 47, 98]).isSome = true := by
+  refine (dispatch_iff E₀ (fun _ => true) h₀ (by decide) [47, 97, 47, 98]).mpr ?_
+  refine ⟨(⟨[⟨false, [.ident [97]]⟩, ⟨false, [.ident [98]]⟩]⟩, 1), by decide,
+          ⟨[.static [97], .static [98]], 1, true⟩, by decide, ?_, rfl⟩
+  show Consumes E₀ [.static [97], .static [98]] (segsOf [47, 97, 47, 98])
+  have : segsOf [47, 97, 47, 98] = [[97], [98]] := by decide
+  rw [this]
+  exact Consumes.innerOne _ _ _ _ (by simp) rfl (by decide) (Consumes.lastOne _ _ rfl (by decide))
+
+/-- … and a path no form admits is not dispatched: `/a` (one segment; every form needs two, or is
+    the match-all which `/a`… also admits — so use a method tree without it) -/
+example : (chosen E₀ (fun _ => true) (build E₀ (h₀.take 2)) [47, 97]).isSome = false := by
+  have hne : ¬ (chosen E₀ (fun _ => true) (build E₀ (h₀.take 2)) [47, 97]).isSome = true := by
+    rw [dispatch_iff E₀ (fun _ => true) (h₀.take 2) (by decide) [47, 97]]
+    rintro ⟨rh, hrh, f, hf, hc, _⟩
+    have hs : segsOf [47, 97] = [[97]] := by decide
+    rw [hs] at hc
+    have hacc : accepted E₀ (h₀.take 2) = h₀.take 2 := by decide
+    rw [hacc] at hrh
+    simp only [h₀, List.take, List.mem_cons, List.mem_nil_iff, or_false] at hrh
+    rcases hrh with rfl | rfl
+    · have : f = ⟨[.static [97], .hole [120]], 0, true⟩ := by
+        have : formsOfRoute E₀ ⟨[⟨false, [.ident [97]]⟩, ⟨false, [.bind [120]]⟩]⟩ 0 = [⟨[.static [97], .hole [120]], 0, true⟩] := by decide
+        rw [this] at hf; simpa using hf
+      subst this
+      cases hc with
+      | innerOne _ _ _ _ _ _ _ hr => cases hr
+    · have : f = ⟨[.static [97], .static [98]], 1, true⟩ := by
+        have : formsOfRoute E₀ ⟨[⟨false, [.ident [97]]⟩, ⟨false, [.ident [98]]⟩]⟩ 1 = [⟨[.static [97], .static [98]], 1, true⟩] := by decide
+        rw [this] at hf; simpa using hf
+      subst this
+      cases hc with
+      | innerOne _ _ _ _ _ _ _ hr => cases hr
+  simpa using hne
+end Example
 
 end Flamego.C01
